@@ -235,6 +235,9 @@ impl Accept {
                         self.deregister_all(sockets);
                     }
 
+                    // the listeners are not used any more; remove unix socket files
+                    sockets.iter().for_each(|info| info.lst.cleanup());
+
                     return true;
                 }
 
